@@ -1,5 +1,5 @@
 (* driver for CopierModel (C20): one case per line (an S-expression) -> one observable line.
-     (case (src TY) (dst TY) (opts OPT*) (calls CALL*))
+     (case (src TY) (dst TY) (opts OPT ...) (calls CALL ...))
    see checks/c20.py for the grammar.  Printing/parsing only; all semantics is the
    extracted new_reflect_copier / run_call. *)
 open Zutil
